@@ -2,3 +2,4 @@ pub mod dhcp;
 pub mod dns;
 pub mod frame;
 pub mod ra;
+pub mod weakhash;
